@@ -31,6 +31,9 @@ static int T(int i) { M(i); return 1; }
 static int F(int i) { M(i); return 0; }
 /* truth values of other scalar types: true = nonzero (0x100000000, 0.5, non-null, NaN), false = 0 / -0.0 / null */
 static double vzero;
+/* operands of 64-bit comparisons (V*: with a mark, N*: without) */
+static long VL(int i, long v) { M(i); return v; }                   static long NL(long v) { return v; }
+static unsigned long VU(int i, unsigned long v) { M(i); return v; } static unsigned long NU(unsigned long v) { return v; }
 static int T_i(int i) { M(i); return 1; }                           static int F_i(int i) { M(i); return 0; }
 static long T_l(int i) { M(i); return 0x100000000L; }               static long F_l(int i) { M(i); return 0; }
 static void *T_p(int i) { M(i); return buf; }                       static void *F_p(int i) { M(i); return 0; }
@@ -72,6 +75,26 @@ TRUEC = dict(i="1", l="0x100000000L", p="(void *)buf", f="0.5f", d="0.5", dn="(v
 FALSEC = dict(i="0", l="0L", p="(void *)0", f="-0.0f", d="-0.0", dn="0.0", x="-0.0L", xn="0.0L")
 
 
+# truth values that are 64-bit COMPARISONS whose operands differ only above bit 31 / have equal low halves
+# (true form, false form); V( = long operand, U( = unsigned long operand
+CMP = dict(
+    ql=("(V(0x100000000L) != 0L)", "(V(0x100000000L) == 0L)"),
+    rl=("(V(0x100000000L) > 1L)", "(V(0x100000005L) < 6L)"),
+    rn=("(V(-0x100000000L) < 0L)", "(V(0xffffffffL) <= -1L)"),
+    ru=("(U(0x100000000UL) >= 5UL)", "(U(0x100000000UL) < 5UL)"),
+    qp=("((char *)V(0x100000000L) != (char *)0)", "((char *)V(0x100000000L) == (char *)0)"),
+    sw=("(1L < V(0x100000000L))", "(0L == V(0x100000000L))"))
+TYS += [["ql", "i", "rl", "d", "ru", "l", "qp", "rn"], ["rl", "qp", "sw", "rn", "p", "ql", "x", "ru"]]
+NROT = 8 * len(TYS)
+for _t, (_a, _b) in CMP.items():
+    TRUEC[_t] = _a.replace("V(", "NL(").replace("U(", "NU(")
+    FALSEC[_t] = _b.replace("V(", "NL(").replace("U(", "NU(")
+
+# loop counters as 64-bit objects that cross 2^32 while the loop runs: (C type, start value, suffix)
+# (a comparison of the low halves alone gives a different answer at the bound)
+WIDE = dict(l=("long", 0x7ffffffe, "L"), n=("long", -0x80000002, "L"), u=("unsigned long", 0xfffffffe, "UL"))
+
+
 def value_leaves(P, i):
     """the T/F leaves whose type becomes the type of expression i"""
     n = P[i - 1]
@@ -97,18 +120,26 @@ def type_map(P, rot):
     return tm
 
 
-def loop_cond(n, i, incr, tm=None):
+def cnum(wd, k):
+    """the counter value k (0 = start) as a C constant"""
+    if not wd:
+        return str(k)
+    v = WIDE[wd][1] + k
+    return "%s0x%x%s" % ("-" if v < 0 else "", abs(v), WIDE[wd][2])
+
+
+def loop_cond(n, i, incr, tm=None, wd=None):
     a = n["a"]
     t = tm[i] if tm else "i"
-    c = FALSEC[t] if a == 0 else TRUEC[t] if a == 9 else ("c%d++ < %d" % (i, a) if incr else "c%d < %d" % (i, a))
+    c = FALSEC[t] if a == 0 else TRUEC[t] if a == 9 else ("c%d++ < %s" % (i, cnum(wd, a)) if incr else "c%d < %s" % (i, cnum(wd, a)))
     return "(M(%d), %s)" % (100 + i, c) if n["b"] & 1 else c
 
 
-def rs(P, i, sw, tm=None):
+def rs(P, i, sw, tm=None, wd=None):
     """render statement/expression node i (1-based) of program P; sw = (ctype, value map) for Switch/Case"""
     n = P[i - 1]
     k, kids = n["k"], n["kids"]
-    R = lambda j: rs(P, kids[j], sw, tm)
+    R = lambda j: rs(P, kids[j], sw, tm, wd)
     cv = lambda v: sw[1][v] if sw else str(v)
     if k == "Mark":
         return "M(%d);" % i
@@ -122,13 +153,13 @@ def rs(P, i, sw, tm=None):
             t = "{ " + t + " }"
         return "if (%s) %s else %s" % (R(0), t, R(2))
     if k == "While":
-        return "{ c%d = 0; while (%s) %s }" % (i, loop_cond(n, i, True, tm), R(0))
+        return "{ c%d = %s; while (%s) %s }" % (i, cnum(wd, 0), loop_cond(n, i, True, tm, wd), R(0))
     if k == "Do":
-        return "{ c%d = 0; do %s while (%s); }" % (i, R(0), loop_cond(n, i, True, tm))
+        return "{ c%d = %s; do %s while (%s); }" % (i, cnum(wd, 0), R(0), loop_cond(n, i, True, tm, wd))
     if k == "For":
-        cond = "" if (n["a"] == 9 and not n["b"] & 1) else loop_cond(n, i, False, tm)
+        cond = "" if (n["a"] == 9 and not n["b"] & 1) else loop_cond(n, i, False, tm, wd)
         inc = "(M(%d), c%d++)" % (200 + i, i) if n["b"] & 2 else "c%d++" % i
-        return "for (c%d = 0; %s; %s) %s" % (i, cond, inc, R(0))
+        return "for (c%d = %s; %s; %s) %s" % (i, cnum(wd, 0), cond, inc, R(0))
     if k == "Switch":
         if sw:
             return "{ %s v%d = %s; switch (v%d) %s }" % (sw[0], i, (sw[2] if len(sw) > 2 else sw[1])[n["a"]], i, R(0))
@@ -151,6 +182,8 @@ def rs(P, i, sw, tm=None):
         return "L%d: %s" % (n["a"], R(0))
     if k == "Expr":
         return R(0) + ";"
+    if k in ("T", "F") and tm and tm[i] in CMP:
+        return CMP[tm[i]][0 if k == "T" else 1].replace("V(", "VL(%d, " % i).replace("U(", "VU(%d, " % i)
     if k in ("T", "F"):
         return "%s%s(%d)" % (k, "_" + tm[i] if tm else "", i)
     if k == "Not":
@@ -166,7 +199,7 @@ def rs(P, i, sw, tm=None):
     if k == "SE":
         return "({ %s %s; })" % (R(0), R(1))
     if k == "CntLt":
-        return "c%d++ < %d" % (i, n["a"])
+        return "c%d++ < %s" % (i, cnum(wd, n["a"]))
     raise Infra("unknown node kind " + k)
 
 
@@ -178,10 +211,11 @@ def render_flow(idx, c):
     stars = [n["a"] for n in P if n["k"] == "GotoStar"]
     out = ["static void f%d(void) {" % idx]
     if cs:
-        out.append(" int " + ", ".join("c%d = 0" % i for i in cs) + ";")
+        wd = c.get("wide")
+        out.append(" %s " % (WIDE[wd][0] if wd else "int") + ", ".join("c%d = %s" % (i, cnum(wd, 0)) for i in cs) + ";")
     if stars:
         out.append(" void *tab[] = {" + ", ".join("&&L%d" % j if j in labs else "(void *)0" for j in range(1, max(stars) + 1)) + "};")
-    out.append(" " + rs(P, 1, sw, type_map(P, c["rot"]) if c.get("rot") is not None else None))
+    out.append(" " + rs(P, 1, sw, type_map(P, c["rot"]) if c.get("rot") is not None else None, c.get("wide")))
     out.append("}")
     return "\n".join(out) + "\n"
 
@@ -391,9 +425,20 @@ def truth_typed_cases(progs):
         if not any(n["k"] in ("T", "F") or (n["k"] in LOOPS and n["a"] in (0, 9)) for n in c["p"]):
             continue
         tgt = mixed if any(n["k"] in ("And", "Or") for n in c["p"]) else rest
-        for rot in range(16):
+        for rot in range(NROT):
             tgt.append(dict(p=c["p"], tr=c["tr"], rot=rot))
     return mixed, rest
+
+
+def wide_counter_cases(progs):
+    """programs with counting loops / counting if-conditions, their counters as long and unsigned long objects
+    that cross 2^32: the conditions are 64-bit comparisons directly controlling while / for / do / if"""
+    out = []
+    for c in progs:
+        if any((n["k"] in LOOPS and n["a"] in (1, 2, 3)) or n["k"] == "CntLt" for n in c["p"]):
+            for wd in sorted(WIDE):
+                out.append(dict(p=c["p"], tr=c["tr"], wide=wd))
+    return out
 
 
 # ------------------------------------------------------------------ scope histories -> C
@@ -401,7 +446,13 @@ SPRELUDE = r"""
 int printf(const char *, ...);
 static void bad(int i) { printf(" BAD%d", i); }
 """
-VAL = dict(obj=10, enum=20, typedef=30, tag=40, mem=50)
+VAL = dict(obj=10, enum=20, typedef=30, mem=50)
+
+
+def tag_size(d):
+    """size of the struct defined by event d: LATER definitions are SMALLER, so that an object whose type is
+    wrongly replaced by a later definition gets too little room"""
+    return 72 - 8 * d
 
 
 def probe_c(name, exp):
@@ -410,12 +461,15 @@ def probe_c(name, exp):
     te = "(int)sizeof(struct %s)" % name if exp["tag"] else "0"
     # a statement that begins with the identifier: parsed as a declaration if it were taken for a typedef name
     st = " %s += 0;" % name if o["k"] == "obj" else ""
-    return st + ' printf(" %%d %%d", %s, %s);' % (oe, te)
+    # every pointer `struct x *p` in scope: the size of the type it was bound to (once that is complete)
+    ps = "".join(' printf(" %%d", %s);' % ("(int)sizeof(*p%s_%d)" % (name, q["pid"]) if q["def"] else "0") for q in exp["ptrs"])
+    return st + ' printf(" %%d %%d", %s, %s);' % (oe, te) + ps
 
 
 def probe_exp(exp):
     o = exp["ord"]
-    return [str(0 if o["k"] == "none" else VAL[o["k"]] + o["id"]), str(VAL["tag"] + exp["tag"] if exp["tag"] else 0)]
+    return ([str(0 if o["k"] == "none" else VAL[o["k"]] + o["id"]), str(tag_size(exp["tag"]) if exp["tag"] else 0)] +
+            [str(tag_size(q["def"]) if q["def"] else 0) for q in exp["ptrs"]])
 
 
 def decl_c(name, k, d):
@@ -426,7 +480,11 @@ def decl_c(name, k, d):
     if k == "enum":
         return "enum { %s = %d };" % (name, VAL[k] + d)
     if k == "tag":
-        return "struct %s { char m[%d]; };" % (name, VAL[k] + d)
+        return "struct %s { char m[%d]; };" % (name, tag_size(d))
+    if k == "tagfwd":
+        return "struct %s;" % name
+    if k == "tagref":
+        return "struct %s *p%s_%d;" % (name, name, d)
     raise Infra("decl kind " + k)
 
 
@@ -455,6 +513,11 @@ def render_scope(idx, c):
             out.append(' struct { int %s; } m%d = { %d }; printf(" %%d", m%d.%s);' % (x, d, VAL["mem"] + d, d, x))
         elif e == "decl":
             out.append((" " if infn else "") + decl_c(x, k, d))
+            if k == "tag" and infn:
+                # an object of the type just defined between two guards; filling it must not touch them (the frame
+                # is laid out at the end of the translation unit from the type's final size)
+                out.append(' { int ga = 7001; struct %s o; int gb = 7002; for (int k = 0; k < (int)sizeof(o.m); k++) o.m[k] = 85;'
+                           ' printf(" %%d %%d %%d", ga, gb, (int)sizeof(o)); }' % x)
         elif e == "g":
             out.append('static void g%d(void) { goto %s; bad(2); %s: printf(" G"); }' % (idx, x, x))
         if infn:
@@ -475,6 +538,8 @@ def expect_scope(idx, c):
             out.append("L")
         if e == "decl" and k == "mem":
             out.append(str(VAL["mem"] + ev["id"]))
+        if e == "decl" and k == "tag" and infn:
+            out += ["7001", "7002", str(tag_size(ev["id"]))]
         if e == "g":
             out.append("G")
         if infn:
@@ -486,32 +551,53 @@ def main_scope(batch):
     return "int main(void) {\n" + "".join(' printf("C %d"); r%d(); printf("\\n");\n' % (i, i) for i, _ in batch) + " return 0; }\n"
 
 
+def fwd_hides_outer(c):
+    """does the history contain `struct x;` in a scope that has no x while an enclosing scope has one (6.7.2.3p7)?"""
+    st = [False]                    # per open scope: has it declared the tag
+    for ev in c["h"]:
+        e, k = ev["e"], ev["k"]
+        if e == "open":
+            st += [False, False] if k == "for" else [False]
+        elif e == "close":
+            del st[-2 if k == "for" else -1:]
+            if not st:
+                st = [False]
+        elif e == "decl" and k == "tagfwd":
+            if not st[-1] and any(st[:-1]):
+                return True
+            st[-1] = True
+        elif e == "decl" and k == "tag":
+            st[-1] = True
+        elif e == "decl" and k == "tagref":
+            if not any(st):
+                st[-1] = True
+    return False
+
+
 def scope_sig(c, exp, got):
-    ks = sorted(set(ev["k"] for ev in c["h"] if ev["e"] == "decl" or ev["p"]))
+    if fwd_hides_outer(c):
+        return "scope:tagfwd-hides-outer"
+    ks = sorted(set(ev["k"] for ev in c["h"] if ev["e"] == "decl" or (ev["e"] == "open" and ev["p"])))
     return "scope:" + "+".join(ks)
 
 
-def replay_scope(ctx, tree, path3, path4):
-    """path3: every history with <= 3 opened constructs; path4 (thorough): 4 opened constructs, of which a
-    seed-selected tenth is replayed.  The big file is streamed and selected by a hash of the line (independent
-    of the order in which TLC's workers wrote it): a large Python heap makes every fork() of the replay slow."""
-    import zlib
+def replay_scope(ctx, tree, paths):
+    """paths: the history files of the Scope.tla generation runs (their union is the replayed domain)"""
     q = ctx.quick
-    key = lambda c: json.dumps(c, sort_keys=True)
-    hs = sorted(vt.read_ndjson(path3), key=key)
-    if path4:
-        g4 = []
-        for line in open(path4):
-            if line.count('\\"e\\":\\"open\\"') + line.count('"e":"open"') == 4 and zlib.crc32(line.strip().encode()) % 10 == ctx.seed % 10:
-                v = json.loads(line)
-                g4.append(json.loads(v) if isinstance(v, str) else v)
-        hs += sorted(g4, key=key)
+    seen, hs = set(), []
+    for path in paths:
+        for h in vt.read_ndjson(path):
+            k = json.dumps(h, sort_keys=True)
+            if k not in seen:
+                seen.add(k)
+                hs.append((k, h))
+    hs = [h for _, h in sorted(hs, key=lambda t: t[0])]
     if len(hs) < 500:
         raise Infra("Scope generator wrote only %d histories" % len(hs))
-    for h in hs:            # each history also gets the second function g
-        h["h"].append(dict(e="g", k="lab", p=False, id=99, exp=None))
-    sel = vt.subsample(hs, ctx.seed, 8 if q else 1)
-    mid = sel[len(sel) // 2]
+    tagged = [h for h in hs if sum(1 for ev in h["h"] if ev["k"] in ("tag", "tagfwd", "tagref")) >= 2]
+    other = [h for h in hs if sum(1 for ev in h["h"] if ev["k"] in ("tag", "tagfwd", "tagref")) < 2]
+    sel = vt.subsample(tagged, ctx.seed, 3 if q else 1) + vt.subsample(other, ctx.seed, 4 if q else 1)
+    mid = sel[len(sel) // 3]
     ctx.sample(dict(kind="scope", c_source=render_scope(0, mid), expected=expect_scope(0, mid)))
     compare(ctx, tree, sel, render_scope, expect_scope, main_scope, "scope", scope_sig, prelude=SPRELUDE,
             nontrivial=lambda c: sum(1 for ev in c["h"] if ev["e"] == "decl" or ev["p"]) >= 2)
@@ -606,6 +692,8 @@ def flow_sig(c, exp, got):
         return "switch:" + c["swsig"]
     if c.get("rot") is not None:
         return "truth:operand-types"
+    if c.get("wide"):
+        return "truth:wide-counter-comparison"
     for tag, grp in (("goto", {"Goto", "GotoStar", "Label"}), ("switch", {"Switch"}), ("stmt-expr", {"SE"}),
                      ("loop", set(LOOPS)), ("expr", {"And", "Or", "Cond", "Comma", "Not"})):
         if ks & grp:
@@ -619,14 +707,22 @@ CONTROLS = [("loopmini", 5, "norestore-cont"), ("loopmini", 5, "norestore-brk"),
             ("expr", 4, "and-or-mixup"), ("swmini", 6, "default-first"), ("swmini", 4, "range-open")]
 
 
+TAGK = '{"tag","tagfwd","tagref"}'
+
+
 def tlc_jobs(ctx):
     """every TLC run of the check as one job list (run PAR at a time, biggest first):
     (key, module, cfg, env, workers, heap, count, expect)   expect: "ok" | "reject" """
     q = ctx.quick
     jobs = []
-    for mo in (3,) if q else (4, 3):
-        out = os.path.join(ctx.scratch, "scope%d.ndjson" % mo)
-        jobs.append((("scope", mo, out), "Scope", ctx.cfg("flow", "Scope_mc.cfg", MaxDecl=3, MaxOpen=mo, Emit=True), dict(OUT=out), 2 if q else 4, "3g", True, "ok"))
+    # quick: 3 declarations in <= 2 opened constructs and 2 declarations in <= 3; thorough: 3 in <= 3
+    # plus the tag forms alone (definition, `struct x;`, `struct x *p;`) with 4 declarations
+    for mdl, mo, dk in ((3, 2, None), (2, 3, None), (4, 2, TAGK)) if q else ((3, 3, None), (4, 3, TAGK)):
+        out = os.path.join(ctx.scratch, "scope%d%d%s.ndjson" % (mdl, mo, "t" if dk else ""))
+        kw = dict(MaxDecl=mdl, MaxOpen=mo, Emit=True)
+        if dk:
+            kw["Decls"] = dk
+        jobs.append((("scope", "%d/%d%s" % (mdl, mo, "t" if dk else ""), out), "Scope", ctx.cfg("flow", "Scope_mc.cfg", **kw), dict(OUT=out), 2 if q else 4, "3g", True, "ok"))
     for name in ("all", "goto", "switch", "loops", "swloop", "expr", "sejump"):
         prof = PROFILES[name]
         out = os.path.join(ctx.scratch, "flow-%s.ndjson" % name)
@@ -634,13 +730,13 @@ def tlc_jobs(ctx):
     # quick runs one control per mechanism, thorough all of them
     for name, n, v in [c for c in CONTROLS if not q or c[2] in ("norestore-cont", "norestore-sw", "and-or-mixup")]:
         jobs.append((("ctl", "CFlow:" + v, None), "CFlow", flow_cfg(ctx, name, n, variant=v, emit=False), None, 1, "1g", False, "reject"))
-    for v in ("for-noleave",) if q else ("for-noleave", "typedef-own-map"):
+    for v in ("for-noleave", "def-completes-outer") if q else ("for-noleave", "typedef-own-map", "def-completes-outer", "fwd-finds-outer"):
         jobs.append((("ctl", "Scope:" + v, None), "Scope", ctx.cfg("flow", "Scope_mc.cfg", MaxDecl=2, Variant='"%s"' % v), None, 1, "1g", False, "reject"))
     jobs.append((("mc", "SwitchCmp", None), "SwitchCmp", ctx.cfg("flow", "SwitchCmp.cfg"), None, 1, "1g", True, "ok"))
     jobs.append((("ctl", "SwitchCmp:labels-in-int", None), "SwitchCmp", ctx.cfg("flow", "SwitchCmp.cfg", FIXED=False), None, 1, "1g", False, "reject"))
     jobs.append((("ctl", "SwitchCmp:narrow-wrap", None), "SwitchCmp", ctx.cfg("flow", "SwitchCmp.cfg", NarrowWrap=True), None, 1, "1g", False, "reject"))
     jobs.append((("mc", "Truth", None), "Truth", ctx.cfg("flow", "Truth.cfg"), None, 1, "1g", True, "ok"))
-    for v in ("rhs-in-lhs-class",) if q else ("rhs-in-lhs-class", "nan-false"):
+    for v in ("rhs-in-lhs-class", "cmp-width-of-result") if q else ("rhs-in-lhs-class", "nan-false", "cmp-width-of-result"):
         jobs.append((("ctl", "Truth:" + v, None), "Truth", ctx.cfg("flow", "Truth.cfg", Variant='"%s"' % v), None, 1, "1g", False, "reject"))
     return jobs
 
@@ -706,11 +802,13 @@ def run(ctx):
     mixed = truth_typed_cases([c for c in progs["expr"] if len(c["p"]) <= 6] + [c for c in progs["all"] if len(c["p"]) <= 4])[0]
     rest = truth_typed_cases([c for c in progs["expr"] if len(c["p"]) <= 5] + [c for c in progs["all"] if len(c["p"]) <= 4])[1]
     truth = mixed + rest
-    usel = vt.subsample(mixed, ctx.seed, 3 if q else 1) + vt.subsample(rest, ctx.seed, 32 if q else 2)
+    wide = wide_counter_cases([c for name in ("loops", "swloop", "goto") for c in progs[name] if len(c["p"]) <= 5])
+    usel = (vt.subsample(mixed, ctx.seed, 6 if q else 1) + vt.subsample(rest, ctx.seed, 64 if q else 4) +
+            vt.subsample(wide, ctx.seed, 4 if q else 1))
     ctx.sample(dict(kind="truth", c_source=render_flow(0, usel[len(usel) // 2]), expected=expect_flow(0, usel[len(usel) // 2])))
     compare(ctx, tree, usel, render_flow, expect_flow, main_flow, "truth", flow_sig, first=2000000)
     ctx.phase("typed truth replay")
-    nh, nhs = replay_scope(ctx, tree, scope[3], scope.get(4))
+    nh, nhs = replay_scope(ctx, tree, [scope[k] for k in sorted(scope)])
     ctx.assumptions += [
         "Level A (CFlow.tla, Scope.tla) was validated against gcc 12 on every generated program / history of the quick domain (and the typed families) at development time; at check time gcc only discards vectors on which it disagrees with the spec",
         "marks are calls of M(id), which appends to a buffer; the observable is the printed buffer",
@@ -720,7 +818,7 @@ def run(ctx):
         rule="case = one complete program of CFlow.tla (per profile; per controlling type x value embedding for the switch profile; per operand-type assignment for the truth family) or one history of Scope.tla, compiled by the tree's chibicc; the printed mark trace / bound declarations are compared with Level A; non-trivial = at least 3 statement nodes / 2 declarations; distinct = distinct program, embedding, typing or history",
         exhaustive=not q, extra=dict(flow_programs=len(allp), flow_replayed=len(sel), typed_switch_programs=len(typed),
                                      narrow_switch_programs=len(narrow), typed_switch_replayed=len(tsel),
-                                     truth_typed_programs=len(truth), truth_typed_replayed=len(usel),
+                                     truth_typed_programs=len(truth), wide_counter_programs=len(wide), truth_typed_replayed=len(usel),
                                      scope_histories=nh, scope_replayed=nhs))
 
 
